@@ -484,6 +484,21 @@ theorem poisson_active_list_overrun_witness :
     poissonOverrun 2 2 (poissonRun false 2 2 10 10 { mask := [false, false, false, false], actives := [(0, 0)] }
       [(0, some (8, 8)), (0, some (8, 8)), (0, some (8, 8)), (0, some (8, 8))]) = true := by decide
 
+/-- why the code clips the radii at one pixel (`Bridge.C04.poisson_radius_floor_eq`) and why that is the least
+it must do: with a radius of at least √2 pixels an accepted candidate always samples a NEW cell (for every grid,
+mask and candidate) … -/
+theorem poisson_large_radius_safe (nx ny : Nat) (den r : Int) (hden : 0 < den) (hr : 2 * (den * den) ≤ r * r)
+    (mask : List Bool) (qx qy : Int) (h : poissonAccept nx ny den r mask qx qy = true) :
+    mask.getD (poissonCell ny den qx qy) false = false :=
+  poissonAccept_cell_free nx ny den r hden hr mask qx qy h
+
+/-- … while with a radius below one pixel (0.3 here — what non-square k-spaces get along the short axis when the
+clip is removed) candidates one radius away from a sampled cell's corner stay in that very cell and are
+accepted again and again: three acceptances overrun the lists of a 1 × 2 grid -/
+theorem poisson_subpixel_radius_overrun_witness :
+    poissonOverrun 1 2 (poissonRun false 1 2 10 3 { mask := [true, false], actives := [(0, 0)] }
+      [(0, some (4, 4)), (0, some (4, 4)), (0, some (4, 4))]) = true := by decide
+
 /-- with the suggested guard (refuse a candidate whose cell is sampled) `num_actives ≤ #sampled + 1 ≤ nx·ny + 1`
 for every run: the lists need one more slot than they have, never more (`_partial`: the initial point is not
 marked in the mask, so capacity `nx·ny` is still one short in the worst case) -/
